@@ -376,7 +376,7 @@ class AbstractInterval(ABC):
 
         Raises:
             ValidationException: If ``parent_or_seq_chunk_parent`` has no ancestor of type ``chromosome`` or
-                ``sequence_chunk``.
+                ``sequence_chunk``, or if its sequence chunk does not record where it sits on its parent.
             NullSequenceException: If ``parent_or_seq_chunk_parent`` has no usable sequence ancestor.
             NoSuchAncestorException: If ``location`` has a ``sequence_chunk`` ancestor, but no ``chromosome`` ancestor.
                 Such a relationship is required to lift from one chunk to a new chunk.
@@ -413,8 +413,13 @@ class AbstractInterval(ABC):
             if not chunk_parent.sequence:
                 raise NullSequenceException("Must have a sequence if a sequence chunk parent is provided.")
 
-            location = location.reset_parent(chunk_parent.parent)
             sequence_chunk = chunk_parent.sequence
+            if sequence_chunk.location_on_parent is None:
+                raise ValidationException(
+                    "The sequence chunk must record its location on its parent sequence (a Parent with a location)."
+                )
+
+            location = location.reset_parent(chunk_parent.parent)
             # do not optimize blocks here -- this retains adjacent CDS intervals
             try:
                 interval_location_rel_to_chunk = sequence_chunk.location_on_parent.parent_to_relative_location(
